@@ -4,7 +4,7 @@ import json
 CHECKS = {
     "C17": dict(
         text="Lean 4 theorems over the executable model of uniform_quantize_tensor.py: scale positive/finite-or-rejected, symmetric zero point 0, zero exactly representable, codes in (narrow) range, monotonicity under IEEE rounding (all for every rational input, float32/float64), and the exact half-step / identity / coverage laws in ideal arithmetic; the model is tied bit-exactly to the code by the arith correspondence (incl. all 4/8-bit codes).",
-        note="both ideal-arithmetic (QProps/C17) and IEEE-rounded (QProps/C17b: zp_in_range, q_dq_rounded, dq_q_rounded with explicit float32 slack) versions are proved; C17c: 64-bit codes (bias of 16-bit-activation ops) stay in range and saturation keeps the sign (q_in_range_64, saturates_high_64) after repair D34 (pinned behaviour d34_pinned_wraps); finding D14 (scale=inf when max-min overflows float32) is recorded, call-site keyed",
+        note="both ideal-arithmetic (QProps/C17) and IEEE-rounded (QProps/C17b: zp_in_range, q_dq_rounded, dq_q_rounded with explicit float32 slack) versions are proved; C17c: 64-bit codes (bias of 16-bit-activation ops) stay in range and saturation keeps the sign (q_in_range_64, saturates_high_64) after repair D34 (pinned behaviour d34_pinned_wraps); C17d: the BLOCKWISE arithmetic (QModel/Blockwise.lean, tied bit-exactly by the family fam_blockwise): success iff the block size divides the reduction dimension, shapes and layout, BLOCKWISE = CHANNELWISE up to the data layout (blockwise_is_channelwise: finding D41 as a theorem, closed witness replayed on the real code), half-step law with the channel's step for every element of the range (sym_half_step_f32), laws of the per-block reference; finding D14 (scale=inf when max-min overflows float32) is recorded, call-site keyed",
         design="§6 C17",
     ),
 }
@@ -86,7 +86,7 @@ CHECKS.update({
 CHECKS.update({
     "C06": dict(
         text="PARTIAL proof. Proved in Lean 4: weight-only / float16 / dynamic-range modes request only DEQUANTIZE-on-constant or in-place constant quantization (C03.xfs_wo, xfs_drq), the rewritten graph keeps the exact operator skeleton of the input (C02.quantize_skeleton), and every stored constant dequantizes to within half a step (+ float32 slack) of the original (C17.dq_q_rounded). The pipeline model is compared bit-exactly with the code on every case. The statement's observable (interpreter(quantized) = interpreter(reference built from the INPUT model + independently decoded constants)) is executed on every generated (model, recipe, input): float32-rounding tolerance for weight-only/float16, generous bound for dynamic range, with localisation of the first operator that is off.",
-        note="LiteRT kernels (incl. hybrid kernels' dynamic 8-bit activation quantization) are outside the model: output equality is exploration-level evidence; C06b: the analytic error bound of the SPECIFIED hybrid (dynamic-range) kernel is proved and shown attained (per-row input quantization to 8 bits, exact integer accumulation, rescaling); two recorded findings D23, D27 are call-site keyed",
+        note="LiteRT kernels (incl. hybrid kernels' dynamic 8-bit activation quantization) are outside the model: output equality is exploration-level evidence; C06c: the operator pattern that REPLACES a FULLY_CONNECTED with BLOCKWISE weights (emulated sub-channel) computes, over exact rationals and for all shapes, FULLY_CONNECTED on the dequantized weight -- both scale layouts, bias and fused RELU (emulated_pattern_computes_fc, _act, _close_to_float; QModel/EmuSem.lean; the SUM axis and the transpose-then-reshape layout of the codes are load-bearing: closed counter-instances); C06b: the analytic error bound of the SPECIFIED hybrid (dynamic-range) kernel is proved and shown attained (per-row input quantization to 8 bits, exact integer accumulation, rescaling); two recorded findings D23, D27 are call-site keyed",
         design="§6 C06",
     ),
     "C07": dict(
